@@ -20,8 +20,8 @@ for d in sorted(glob.glob(os.path.join(VERIF, 'seeded', '*'))):
             checks.append('%s: exit %s' % (prop, r['exit']))
     c = m.get('confirmed', {})
     ok = c.get('applies') and c.get('demo_on_repo') == 0 and c.get('demo_on_patched') == 1
-    rows.append('| %s | %s | %s | %s | %s |' % (os.path.basename(d), (m.get('summary') or '').replace('|', '/')[:230],
-                                             (m.get('needs') or '').replace('|', '/')[:200] if isinstance(m.get('needs'), str) else str(m.get('needs'))[:200],
+    rows.append('| %s | %s | %s | %s | %s |' % (os.path.basename(d), (m.get('summary') or '').replace('|', '/').replace('\n', ' ')[:200],
+                                             (m.get('needs') or '').replace('|', '/').replace('\n', ' ')[:160] if isinstance(m.get('needs'), str) else str(m.get('needs'))[:160],
                                              'yes' if ok else 'NO', '; '.join(checks)))
 print('| seed | change | needs | confirmed (suite 105/105, demo 0 / 1) | checks |')
 print('|---|---|---|---|---|')
